@@ -169,4 +169,116 @@ theorem refines_dropDatabase (s : Sys) (name : String) (oids : List V) (hi : Sys
         simp only [Except.ok.injEq] at this
         simp [he, this]
 
+/-! ### dropIndex / dropAllIndexes / dropIndexByKey -/
+
+theorem shape_any (idx : List (String × Index)) (name : String) :
+    (shape idx).any (·.1 == name) = idx.any (·.1 == name) := by
+  simp only [shape, List.any_map]; rfl
+
+theorem shape_filter (idx : List (String × Index)) (p : String → Bool) :
+    (shape idx).filter (fun x => p x.1) = shape (idx.filter (fun x => p x.1)) := by
+  simp only [shape, List.filter_map]; rfl
+
+/-- `Collection.DropIndex` by a non-empty name = the Spec's `dropIndex` -/
+theorem dropIndex_abs (c : Coll) {name : String} (hn : name ≠ "") :
+    (c.dropIndex name).map (fun r => absC r.1) = (absC c).dropIndex name := by
+  have hn' : (name != "") = true := by simpa using hn
+  unfold Coll.dropIndex SColl.dropIndex
+  simp only [hn', ↓reduceIte, absC, shape_any]
+  split
+  · rfl
+  · split
+    · rfl
+    · simp only [Except.map]
+      have := shape_filter c.indexes (fun n => n != name)
+      rw [this]
+
+/-- `Transaction.DropIndex` ("" = all) on the abstraction = the Spec's `dropIn` -/
+theorem txnDropIndex_abs (s : Sys) (h : Handle) (name : String) (nu : Nu) :
+    (Txn.dropIndex { catalog := s.catalog } h name).map (fun t => abs (s.commit t nu).catalog) =
+      dropIndexCall (abs s.catalog) h name := by
+  unfold Txn.dropIndex dropIndexCall
+  cases hwr : writable h true with
+  | error e => rfl
+  | ok _ =>
+    have hne := writable_ne_oplog hwr
+    simp only [abs_get? s.catalog hne]
+    cases hg : s.catalog.get? h with
+    | none => rfl
+    | some c =>
+      simp only [Option.map_some, dropIn]
+      by_cases hn : name = ""
+      · subst hn
+        have h1 := shape_filter c.indexes (fun n => n != "_id_")
+        have h2 := shape_filter c.indexes (fun n => n == "_id_")
+        have hemp' : ((absC c).defs.filter (fun x => x.1 != "_id_")).isEmpty =
+            (c.indexes.filter fun x => x.1 != "_id_").isEmpty := by
+          simp only [absC]; rw [h1]; simp [shape]
+        simp only [Coll.dropIndex, bne_self_eq_false, Bool.false_eq_true, ↓reduceIte, beq_self_eq_true,
+          dropAllIn, List.isEmpty_map, hemp']
+        cases hemp : (c.indexes.filter fun x => x.1 != "_id_").isEmpty with
+        | true => simp [Except.map, Sys.commit]
+        | false =>
+          simp only [Bool.false_eq_true, ↓reduceIte, Except.map, Sys.commit]
+          rw [abs_set s.catalog _ hne]
+          simp only [absC, SColl.dropAllIndexes]
+          rw [h2]
+      · have hb : (name == "") = false := by simpa using hn
+        simp only [hb, Bool.false_eq_true, ↓reduceIte]
+        rw [← dropIndex_abs c hn]
+        cases hd : c.dropIndex name with
+        | error e => rfl
+        | ok r =>
+          obtain ⟨coll, dropped⟩ := r
+          obtain ⟨_, _, p, _, _, h1, _⟩ := dropIndex_spec hd
+          obtain ⟨_, _, hdr⟩ := h1 hn
+          subst hdr
+          simp [Except.map, Sys.commit, abs_set s.catalog coll hne]
+
+theorem refines_dropIndex (s : Sys) (h : Handle) (name : String) (oids : List V) :
+    Refines sch s (.dropIndex h name) oids := by
+  unfold Refines Sys.step
+  simp only [Spec.step, runCall, ← txnDropIndex_abs s h name (s.nu oids)]
+  cases Txn.dropIndex { catalog := s.catalog } h name <;> rfl
+
+theorem refines_dropAllIndexes (s : Sys) (h : Handle) (oids : List V) :
+    Refines sch s (.dropAllIndexes h) oids := by
+  unfold Refines Sys.step
+  simp only [Spec.step, runCall, ← txnDropIndex_abs s h "" (s.nu oids)]
+  cases Txn.dropIndex { catalog := s.catalog } h "" <;> rfl
+
+theorem find_shape (idx : List (String × Index)) (key : Doc) :
+    (shape idx).find? (fun x => V.cmp (.doc x.2.key) (.doc key) == .eq) =
+      (idx.find? (fun x => V.cmp (.doc x.2.config.key) (.doc key) == .eq)).map (fun x => (x.1, x.2.config)) := by
+  simp only [shape, List.find?_map]
+  rfl
+
+theorem refines_dropIndexByKey (s : Sys) (h : Handle) (key : Doc) (oids : List V) :
+    Refines sch s (.dropIndexByKey h key) oids := by
+  unfold Refines Sys.step
+  simp only [Spec.step, runCall, Txn.dropIndexByKey]
+  cases hwr : writable h true with
+  | error e => rfl
+  | ok _ =>
+    have hne := writable_ne_oplog hwr
+    simp only [abs_get? s.catalog hne]
+    cases hg : s.catalog.get? h with
+    | none => rfl
+    | some c =>
+      simp only [Option.map_some]
+      have hfs := find_shape c.indexes key
+      simp only [absC]
+      have hfun2 : (fun (x : String × Index) => match x with | (_, i) => V.cmp (.doc i.config.key) (.doc key) == .eq) =
+          fun x => V.cmp (.doc x.2.config.key) (.doc key) == .eq := by funext x; rfl
+      rw [hfun2, hfs]
+      cases hf : c.indexes.find? (fun x => V.cmp (.doc x.2.config.key) (.doc key) == .eq) with
+      | none => rfl
+      | some p =>
+        obtain ⟨name, i⟩ := p
+        simp only [Option.map_some]
+        rw [← txnDropIndex_abs s h name (s.nu oids)]
+        cases Txn.dropIndex { catalog := s.catalog } h name with
+        | error e => rfl
+        | ok t => rfl
+
 end Lungo.C01
